@@ -96,6 +96,22 @@ fn replay_cmd(path: &str) -> ! {
 			}
 			std::process::exit(if o.violations.is_empty() { 0 } else { 1 });
 		}
+		"seq-acquire" => {
+			let spec: spec::Spec = serde_json::from_value(r["spec"].clone()).expect("spec");
+			let assign: Vec<u8> = serde_json::from_value(r["assign"].clone()).expect("assign");
+			let flavour: interp::Flavour = serde_json::from_value(r["flavour"].clone()).expect("flavour");
+			let write = r["write"].as_bool().unwrap_or(true);
+			println!("case: {} {} leaf-states(0 free,1 read-held,2 write-held by another thread)={:?}", spec.describe(), flavour.api(write), assign);
+			let o = seqchecks::run_acq_case(&spec, &assign, flavour, write, true);
+			for l in &o.trace {
+				println!("  {}", l);
+			}
+			println!("  outcome: {} held afterwards: {:?} table: {}", o.outcome, o.held_after, o.table_after);
+			for x in &o.violations {
+				println!("VIOLATION-REPRODUCED property={} {} :: {}", x.prop, x.key, x.detail);
+			}
+			std::process::exit(if o.violations.is_empty() { 0 } else { 1 });
+		}
 		"compile" => {
 			println!("offending line: {}\ntwin line:      {}\nfiles: {}", r["offending_line"], r["twin_line"], r["files"]);
 			std::process::exit(0);
